@@ -325,6 +325,13 @@ func (cc *checkCtx) verifyFn(name string, fn *ssa.Function) {
 			// something that no longer exists (a renamed local, a removed loop) or its body left
 			// the supported subset. No obligation could be generated, so nothing failed: this is
 			// reported as undecided, never as a violation (a harmless refactoring does this too).
+			if rep.Status == "contract-error" && strings.Contains(res.Err.Error(), "no field ") {
+				// the contract speaks about a struct field that no longer exists: a change of the data
+				// the property is stated over, not a renamed temporary - reported
+				path := cc.writeReplay(name+"#verifiable", "a struct field the contract is stated over no longer exists: "+trunc(res.Err.Error(), 300), &SolverAnswer{Status: "contract-error"}, nil)
+				cc.viol = append(cc.viol, fmt.Sprintf("VIOLATION property=%s replay=%s no-failing-input-found", cc.prop, path))
+				return
+			}
 			cc.undecided = append(cc.undecided, name+"#verifiable ("+rep.Status+": "+trunc(res.Err.Error(), 160)+")")
 			fmt.Printf("UNDECIDED property=%s function=%s reason=%s\n", cc.prop, name, rep.Status)
 		}
@@ -442,10 +449,21 @@ func (cc *checkCtx) reportFailure(x *Exec, r *OblResult, inLedger bool) {
 	case inLedger:
 		path := cc.writeReplay(r.O.Name, "obligation discharged on the pinned tree is no longer provable ("+r.Ans.Status+")", r.Ans, r.O)
 		cc.viol = append(cc.viol, fmt.Sprintf("VIOLATION property=%s replay=%s no-failing-input-found", cc.prop, path))
+	case contractKinds[r.O.Kind] && cc.fnInLedger(oblFunc(r.O.Name)):
+		// A new obligation (its name is not in the ledger) that stems from a clause of the
+		// function's contract - a frame location the function did not write before, an invariant at
+		// a new back edge, a second call site of a constrained callee - in a function that was
+		// verified on the pinned tree: the contract held there and cannot be shown to hold now.
+		path := cc.writeReplay(r.O.Name, "a contract obligation that did not arise on the pinned tree (new write / call site / back edge in a function verified there) cannot be discharged ("+r.Ans.Status+")", r.Ans, r.O)
+		cc.viol = append(cc.viol, fmt.Sprintf("VIOLATION property=%s replay=%s no-failing-input-found", cc.prop, path))
 	default:
 		cc.undecided = append(cc.undecided, r.O.Name+" ("+r.Ans.Status+")")
 	}
 }
+
+// contractKinds: obligations generated from clauses of a contract (as opposed to the automatic
+// no-panic obligations, whose number and names change with any edit).
+var contractKinds = map[string]bool{"ensures": true, "frame": true, "calls": true, "inv.entry": true, "inv.preserved": true, "lock": true, "monitor": true, "sync": true, "decreases": true}
 
 func (cc *checkCtx) writeReplay(obl, why string, ans *SolverAnswer, o *Obligation) string {
 	dir := filepath.Join(cc.verifDir, "replays", cc.prop)
@@ -669,4 +687,12 @@ func (cc *checkCtx) crossCheck(rs []*OblResult) {
 	}
 	wg.Wait()
 	sort.Strings(cc.singleSolver)
+}
+
+// oblFunc: the function an obligation name belongs to (the part before the first '#').
+func oblFunc(name string) string {
+	if i := strings.Index(name, "#"); i >= 0 {
+		return name[:i]
+	}
+	return name
 }
